@@ -2156,6 +2156,27 @@ pub fn a_corpus_doc(i: usize) -> Option<(ADoc, bool)> {
             },
             true,
         ),
+        // more than 65535 CIGAR operations (the BAM `kSmN` placeholder + CG tag convention), with the
+        // sequence stored and with SEQ `*` (then k = l_seq = 0): encoder and readers must agree on k.
+        // `I`/`P` consume no reference, so the span stays inside the 2000-base reference. Not for CRAM
+        // (a mapped CRAM record needs its bases).
+        13 => {
+            let big = |name: &[u8], extra: usize, with_seq: bool| {
+                let n = 32_768 + extra;
+                let cigar: Vec<(char, usize)> = (0..n).flat_map(|_| [('I', 1usize), ('P', 1usize)]).collect();
+                ARec {
+                    name: Some(name.to_vec()),
+                    rid: Some(0),
+                    pos: Some(10),
+                    mapq: Some(20),
+                    cigar,
+                    seq: if with_seq { (0..n).map(|k| b"ACGT"[k % 4]).collect() } else { vec![] },
+                    qual: if with_seq { (0..n).map(|k| 2 + (k % 40) as u8).collect() } else { vec![] },
+                    ..Default::default()
+                }
+            };
+            (ADoc { hkind: 2, recs: vec![mapped(b"r0"), big(b"big_noseq", 0, false), big(b"big_seq", 1, true), ARec { seq: vec![], qual: vec![], ..mapped(b"noseq") }, unmapped(b"r4")] }, false)
+        }
         _ => return None,
     })
 }
